@@ -24,6 +24,7 @@ const (
 	errorInvalidBulkStringLength = "invalid bulk string length (%d != %d)"
 	errorInvalidBulkStringDelim  = "invalid bulk string ending delimiter %s"
 	errorTooLargeBulkString      = "invalid bulk string length (%d > %d)"
+	errorTooLargeArray           = "invalid array size (%d > %d)"
 )
 
 // ErrEOM is the error returned by Array::Next() when no more message is available.
